@@ -213,10 +213,19 @@ func setMatchedPrimitiveValue(kind reflect.Kind, value reflect.Value, v any) err
 	case reflect.Bool:
 		value.SetBool(v.(bool))
 	case reflect.Int, reflect.Int8, reflect.Int16, reflect.Int32, reflect.Int64:
+		if value.OverflowInt(v.(int64)) {
+			return fmt.Errorf("数值 %v 超出 %s 的范围", v, kind)
+		}
 		value.SetInt(v.(int64))
 	case reflect.Uint, reflect.Uint8, reflect.Uint16, reflect.Uint32, reflect.Uint64:
+		if value.OverflowUint(v.(uint64)) {
+			return fmt.Errorf("数值 %v 超出 %s 的范围", v, kind)
+		}
 		value.SetUint(v.(uint64))
 	case reflect.Float32, reflect.Float64:
+		if value.OverflowFloat(v.(float64)) {
+			return fmt.Errorf("数值 %v 超出 %s 的范围", v, kind)
+		}
 		value.SetFloat(v.(float64))
 	case reflect.String:
 		value.SetString(v.(string))
